@@ -24,6 +24,9 @@ Loops over the axes execute one symbolic iteration; a comprehension over the axe
 (labels, truth values, lists) and an undecided comprehension filter are two-way branches of the enclosing statement (`_Split`);
 a test on a value the current path has already branched on takes the same outcome (`_known`), so a per-axis flag tested in a loop
 and again in a comprehension stays consistent.  list.append / insert / extend / `+=` and starred displays build python lists.
+A `for` over cases that are written out in the code (a tuple / list display, also in a temporary or under zip / enumerate) is not a loop over
+the axes: it is executed case by case as python does, with `break` / `continue` / `else` (`_literal_loop`), so it reads like the if / elif
+chain or the copy-pasted blocks it stands for.
 """
 from __future__ import annotations
 
@@ -32,7 +35,8 @@ import itertools
 
 import sympy as sp
 
-from ..core import AnchorMissing, Check, Undecided, dotted, kwarg
+from ..core import AnchorMissing, Check, Undecided, dotted, kwarg, own_nodes
+from ..nf import Ctx
 from ..terms import Extractor, Guard, Opaque, WHERE, _Ret
 
 LEVEL = "other"
@@ -50,7 +54,10 @@ PKG_RECORD = {"chebyshev", "cardinal", "changeBasis", "derivMatrix", "Polynomial
 
 
 class _Loop:
-    """outcome of a `break` / `continue`: ends the single symbolic iteration of the loop body"""
+    """outcome of a `break` / `continue`: ends the (symbolic or written-out) iteration of the loop body"""
+
+    def __init__(self, brk: bool = False):
+        self.brk = brk
 
 
 class _Split(Exception):
@@ -105,6 +112,8 @@ class _PolyEx(Extractor):
         self._forced: dict = {}      # id(test node) -> outcome chosen for it while a statement is re-executed per outcome (see _Split)
         self._nosplit = 0            # > 0 while the elements of a concrete multi-element comprehension are evaluated
         self._guards: list = []      # guards of the path the statement under evaluation lies on
+        self._fstack: list = []      # the functions under evaluation (innermost last)
+        self._temps: dict = {}       # id(function node) -> (ids of its own statements, its single-assignment temporaries)
 
     # ---- small helpers
     def fresh(self, what="havoc"):
@@ -274,6 +283,10 @@ class _PolyEx(Extractor):
             if isinstance(c, sp.Basic):
                 # undecided: both branches; the guard remembers the value tested (without the `not`s) so that a later test of it agrees
                 return self.block(st.body, env, guards + [Guard(t, not flip, c)], depth) + self.block(st.orelse, env, guards + [Guard(t, flip, c)], depth)
+        if isinstance(st, ast.For):
+            done = self._literal_loop(st, env, guards, depth)
+            if done is not None:
+                return done
         if isinstance(st, (ast.For, ast.AsyncFor, ast.While)):
             env = dict(env)
             self._rebind_closures(env)
@@ -284,7 +297,7 @@ class _PolyEx(Extractor):
                 out.append((e, g, None if isinstance(o, _Loop) else o))
             return out
         if isinstance(st, (ast.Break, ast.Continue)):
-            return [(env, guards, _Loop())]
+            return [(env, guards, _Loop(isinstance(st, ast.Break)))]
         if isinstance(st, ast.Assert):
             try:
                 self.asserts.append(self.expr(st.test, env, depth))
@@ -323,6 +336,84 @@ class _PolyEx(Extractor):
                     if d is not None:
                         env[d] = self.fresh()
             return [(env, guards, None)]
+
+    # ---- a `for` over cases that are written out: `for name, values in (("z", chi), ("pz", rz), ("pp", rp)):`
+    MAX_CASES = 8
+
+    def _temporaries(self, st) -> dict:
+        """the single-assignment temporaries of the function under evaluation, when `st` is one of its own statements"""
+        fi = self._fstack[-1] if self._fstack else None
+        if fi is None:
+            return {}
+        if id(fi.node) not in self._temps:
+            self._temps[id(fi.node)] = ({id(x) for x in own_nodes(fi.node)}, Ctx(self.source, fi).local_defs())
+        own, defs = self._temps[id(fi.node)]
+        return defs if id(st) in own else {}
+
+    def _case_values(self, it, env, depth, defs):
+        """the values a `for` statement iterates over when its cases are written out in the code: a tuple / list display (also held in a
+        single-assignment temporary), zip(...) of such (equally long) or enumerate(...) of one; None for every other iterable"""
+        if isinstance(it, (ast.Tuple, ast.List)):
+            if any(isinstance(e, ast.Starred) for e in it.elts):
+                return None
+            return [self.expr(e, env, depth) for e in it.elts]
+        if isinstance(it, ast.Name):
+            d, v = defs.get(it.id), env.get(it.id)
+            if isinstance(d, (ast.Tuple, ast.List)) and not any(isinstance(e, ast.Starred) for e in d.elts) and isinstance(v, (tuple, list)) and len(v) == len(d.elts):
+                return list(v)
+            return None
+        if isinstance(it, ast.Call) and isinstance(it.func, ast.Name) and it.func.id not in env and not any(isinstance(a, ast.Starred) for a in it.args):
+            if it.func.id == "zip" and it.args and all(k.arg == "strict" for k in it.keywords):
+                cols = [self._case_values(a, env, depth, defs) for a in it.args]
+                if any(c is None for c in cols) or len({len(c) for c in cols}) != 1:
+                    return None
+                return [tuple(row) for row in zip(*cols)]
+            if it.func.id == "enumerate" and it.args and len(it.args) + len(it.keywords) <= 2 and all(k.arg == "start" for k in it.keywords):
+                start = kwarg(it, "start", 1)
+                first = sp.Integer(0) if start is None else self._num(self.expr(start, env, depth))
+                col = self._case_values(it.args[0], env, depth, defs)
+                if col is None or not isinstance(first, sp.Integer):
+                    return None
+                return [(first + i, v) for i, v in enumerate(col)]
+        return None
+
+    @staticmethod
+    def _fits(target, v) -> bool:
+        if isinstance(target, ast.Name):
+            return True
+        if isinstance(target, (ast.Tuple, ast.List)) and isinstance(v, (tuple, list)) and len(v) == len(target.elts):
+            return all(_PolyEx._fits(t, x) for t, x in zip(target.elts, v))
+        return False
+
+    def _literal_loop(self, st, env, guards, depth):
+        """A loop over written-out cases is executed case by case, exactly as python does (it is the copy-pasted blocks / the if-elif chain
+        it replaces): the cases are evaluated once, the body runs for each with the targets bound, `continue` goes on with the next case, `break`
+        leaves the loop and skips its `else`, `return` / `raise` end the path.  None when the iterable is anything else (then the loop runs over
+        the axes, or over something unknown, and its body is executed once symbolically as before)."""
+        try:
+            vals = self._case_values(st.iter, env, depth, self._temporaries(st))
+        except Undecided:
+            return None
+        if vals is None or len(vals) > self.MAX_CASES or not all(self._fits(st.target, v) for v in vals):
+            return None
+        live, out = [(env, guards)], []
+        for v in vals:
+            nxt = []
+            for e, g in live:
+                e = dict(e)
+                self._rebind_closures(e)
+                self.assign(st.target, v, e)
+                for e2, g2, o in self.block(st.body, e, g, depth):
+                    if o is None or (isinstance(o, _Loop) and not o.brk):
+                        nxt.append((e2, g2))
+                    else:
+                        out.append((e2, g2, None if isinstance(o, _Loop) else o))
+            live = nxt
+            if len(live) + len(out) > 256:
+                raise Undecided("path explosion in a loop over literal cases")
+        for e, g in live:
+            out += self.block(st.orelse, e, g, depth) if st.orelse else [(e, g, None)]
+        return out
 
     def _bind_iter(self, target, iterable, scope, env, depth) -> bool:
         """bind the targets of `for target in iterable` (a loop statement or the generator of a comprehension; `scope` is the loop /
@@ -559,6 +650,13 @@ class _PolyEx(Extractor):
                 return SUB(v, sp.Symbol("sl|" + ",".join(parts)))
         return super().subscript(n, env, depth)
 
+    def _const_index(self, sl, env):
+        """also a name that holds a concrete integer: the counter of `enumerate(<written-out cases>)`"""
+        k = super()._const_index(sl, env)
+        if k is None and isinstance(sl, ast.Name) and isinstance(env.get(sl.id), sp.Integer) and sl.id not in self.axis_names:
+            return int(env[sl.id])
+        return k
+
     def _bound(self, e, env, depth):
         try:
             return self.expr(e, env, depth)
@@ -664,7 +762,11 @@ class _PolyEx(Extractor):
     def paths(self, finfo, args=None, outer_env=None, depth=0):
         if outer_env is None and self._outer:
             outer_env = dict(self._outer)      # inlined helpers see the same fixed attributes (self.rank) as the analysed method
-        return super().paths(finfo, args, outer_env, depth)
+        self._fstack.append(finfo)
+        try:
+            return super().paths(finfo, args, outer_env, depth)
+        finally:
+            self._fstack.pop()
 
     def run(self, fi, args=None, outer=None):
         """normal paths of fi"""
